@@ -4,6 +4,8 @@ import KdVerif.Proofs.TraceNoExc
 import KdVerif.Gen.Decoders
 import KdVerif.Gen.Host
 import KdVerif.Gen.Codes
+import KdVerif.Proofs.PyIRTr
+import KdVerif.Gen.PyIRTr
 /-
   C05 — per-thread results are invariant under interleaving of threads.
 
@@ -374,5 +376,161 @@ example :
 /-- Shape of defect F02 (one parser-wide pending slot): under the adversarial schedule thread 1's string would
     consult thread 2's record and teach `(22, "pA")`; the per-thread tables above teach `(11, "pA")`. -/
 example : (taught (tableWrites exEnv (start {}) adversarial)) = [(1, 11, "pA"), (2, 22, "pB")] := by decide +kernel
+
+/-! ### Translation tie: the source text of the ten context-table handlers of trace_handlers/trace.py
+
+  `tools/gen_pyir_tr.py` translates `trace_handlers/trace.py` (pure `ast`; the two `DgbFuncQual` values reflected from
+  kevent.py) into the Python-subset IR of `Model/PyIRTr` on every run (`Gen/PyIRTr.lean`): the ten `handle_trace_*`
+  functions as statements, the `__str__` methods of their dataclasses as f-string pieces, the `handlers` dict as a list.
+  `PyIRTr.runHandler` is a big-step interpreter over the model's `Tabs`; `bytes.decode()` stays the parameter `env.dec`.
+  The hand-written `Trace.hDataNewthread` … `Trace.hStringThreadname` — what `handler_writes_sound`,
+  `learned_names_per_thread`, `projection_traces` above (and C07 / C08 / C14) rest on — are proved to BE that interpreted
+  source on every non-empty window of four-word records (`Words4`: what `from_kd_buf` produces; `parse_event_list` never
+  passes an empty window on), and `Trace.run` to be the run with the ten handlers taken from the source. -/
+
+/-- **The translated source is the program the refinement lemmas were proved for** (`Spec/PyIRTrExpected`, quoting the
+    Python): every handler body, every `__str__`, the `handlers` dict — and the translator met nothing outside the
+    subset. -/
+theorem source_is_expected_ir : Gen.PyIRTr.prog = PyIRTr.Expected.prog ∧ Gen.PyIRTr.notes = [] := by decide
+
+section ir
+open PyIRTr
+variable (env : Env) (t : Tabs) (e : Kevent) (rest : List Kevent)
+
+/-- **`handle_trace_data_newthread`, interpreted, is `hDataNewthread`**: the text `New thread <tid> of parent: <pid>`,
+    `last_data_newthread` keyed by the FEEDING thread (`events[0].tid`), `threads_pids[new tid] = pid`. -/
+theorem handle_trace_data_newthread_ir_eq_model (h4 : e.values.length = 4) :
+    runHandler Gen.PyIRTr.prog env "TRACE_DATA_NEWTHREAD" t (e :: rest) = hDataNewthread env t (e :: rest) := by
+  rw [source_is_expected_ir.1]; exact run_dataNewthread env t e rest h4
+
+/-- **`handle_trace_data_exec`, interpreted, is `hDataExec`**: `last_data_exec` keyed by the feeding thread. -/
+theorem handle_trace_data_exec_ir_eq_model (h4 : e.values.length = 4) :
+    runHandler Gen.PyIRTr.prog env "TRACE_DATA_EXEC" t (e :: rest) = hDataExec env t (e :: rest) := by
+  rw [source_is_expected_ir.1]; exact run_dataExec env t e rest h4
+
+/-- **`handle_trace_data_thread_terminate`, interpreted, is `hDataThreadTerminate`**: no table is written; the text has
+    `, pid: …` exactly when `threads_pids` knows the thread and `, name: …` exactly when `tids_names` holds a non-empty
+    name (the conditional `rep +=` of `TraceDataThreadTerminate.__str__`). -/
+theorem handle_trace_data_thread_terminate_ir_eq_model (h4 : e.values.length = 4) :
+    runHandler Gen.PyIRTr.prog env "TRACE_DATA_THREAD_TERMINATE" t (e :: rest) =
+      hDataThreadTerminate env t (e :: rest) := by
+  rw [source_is_expected_ir.1]; exact run_dataThreadTerminate env t e rest h4
+
+/-- **`handle_trace_data_thread_terminate_pid`, interpreted, is `hDataThreadTerminatePid`**. -/
+theorem handle_trace_data_thread_terminate_pid_ir_eq_model (h4 : e.values.length = 4) :
+    runHandler Gen.PyIRTr.prog env "TRACE_DATA_THREAD_TERMINATE_PID" t (e :: rest) =
+      hDataThreadTerminatePid env t (e :: rest) := by
+  rw [source_is_expected_ir.1]; exact run_dataThreadTerminatePid env t e rest h4
+
+/-- **`handle_trace_string_global`, interpreted, is `hStringGlobal`**: a fragment (no START bit) returns None; the loop
+    is `globalLoop` (records of another code skipped, 16 bytes dropped from a START record, stop at the first END
+    record); the reassembled text is stored under its id unless empty; `ktraces` are the string's own records. -/
+theorem handle_trace_string_global_ir_eq_model (hw : Words4 (e :: rest)) :
+    runHandler Gen.PyIRTr.prog env "TRACE_STRING_GLOBAL" t (e :: rest) = hStringGlobal env t (e :: rest) := by
+  rw [source_is_expected_ir.1]; exact run_stringGlobal env t e rest hw
+
+/-- **`handle_trace_string_newthread`, interpreted, is `hStringNewthread`**: the name goes to `pids_names` under the pid
+    of the FEEDING thread's pending new-thread record, if there is one (defect F2); a `decode` failure is raised. -/
+theorem handle_trace_string_newthread_ir_eq_model :
+    runHandler Gen.PyIRTr.prog env "TRACE_STRING_NEWTHREAD" t (e :: rest) = hStringNewthread env t (e :: rest) := by
+  rw [source_is_expected_ir.1]; exact run_stringNewthread env t e rest
+
+/-- **`handle_trace_string_exec`, interpreted, is `hStringExec`**. -/
+theorem handle_trace_string_exec_ir_eq_model :
+    runHandler Gen.PyIRTr.prog env "TRACE_STRING_EXEC" t (e :: rest) = hStringExec env t (e :: rest) := by
+  rw [source_is_expected_ir.1]; exact run_stringExec env t e rest
+
+/-- **`handle_trace_string_proc_exit`, interpreted, is `hStringProcExit`**. -/
+theorem handle_trace_string_proc_exit_ir_eq_model :
+    runHandler Gen.PyIRTr.prog env "TRACE_STRING_PROC_EXIT" t (e :: rest) = hStringProcExit env t (e :: rest) := by
+  rw [source_is_expected_ir.1]; exact run_stringProcExit env t e rest
+
+/-- **`handle_trace_string_threadname`, interpreted, is `hStringThreadname`**: a fragment returns None; the payloads of
+    the window's records of the first record's code are joined (`joinData`), decoded once, stored in `tids_names`
+    under the feeding thread. -/
+theorem handle_trace_string_threadname_ir_eq_model :
+    runHandler Gen.PyIRTr.prog env "TRACE_STRING_THREADNAME" t (e :: rest) =
+      hStringThreadname "TRACE_STRING_THREADNAME" "New thread name: " env t (e :: rest) := by
+  rw [source_is_expected_ir.1]; exact run_stringThreadname env t e rest
+
+/-- **`handle_trace_string_threadname_prev`, interpreted, is `hStringThreadname`** with the other key and label. -/
+theorem handle_trace_string_threadname_prev_ir_eq_model :
+    runHandler Gen.PyIRTr.prog env "TRACE_STRING_THREADNAME_PREV" t (e :: rest) =
+      hStringThreadname "TRACE_STRING_THREADNAME_PREV" "Thread terminated name: " env t (e :: rest) := by
+  rw [source_is_expected_ir.1]; exact run_stringThreadnamePrev env t e rest
+
+/-- **The `handlers` dict of the source, interpreted, is the hand model's handler table on the ten names**: whatever
+    the nested `parse_event_list` means. -/
+theorem handlers_ir_eq_model (nested : Tabs → List Kevent → Except PyErr (Option TraceOut × Tabs)) (name : String)
+    (h : traceDomainNames.contains name = true) (hw : Words4 (e :: rest)) :
+    runHandler Gen.PyIRTr.prog env name t (e :: rest) = handleWith nested env t name (e :: rest) := by
+  rw [source_is_expected_ir.1]; exact runHandler_eq_handleWith nested env t name e rest h hw
+
+/-- On the EMPTY window each of the ten handlers raises IndexError (`events[0]`) — as `parse_event_list` does before it
+    calls one (`Trace.parseEventListWith`); the hand-model functions are not meant for it. -/
+theorem handlers_ir_empty_window (name : String) (h : traceDomainNames.contains name = true) :
+    runHandler Gen.PyIRTr.prog env name t [] = .error .indexError := by
+  rw [source_is_expected_ir.1]; exact run_empty env t name h
+
+/-- **The subject of the text / names theorems above is the interpreted source**: `Trace.run` (what
+    `projection_traces`, `learned_names_per_thread`, `interleaving_invariant_names`, `table_writes_sound` speak about)
+    equals the run in which the ten `trace.py` handlers are the translated ones run by the interpreter (nested
+    `parse_event_list` calls included) — same traces, same exception, same final state — from every state whose open
+    windows hold four-word records, on every stream of four-word records. -/
+theorem run_ir_eq_model (s : PState) (es : List Kevent)
+    (hs : PInv (fun x => x.values.length = 4) s.pairing) (hw : Words4 es) :
+    runVia Gen.PyIRTr.prog env s es = Trace.run env s es := by
+  rw [source_is_expected_ir.1]; exact runVia_eq env es s hs hw
+
+end ir
+
+/-! #### non-vacuity: generated handlers on concrete records -/
+
+/-- a new-thread string record of thread `tid` WITH its four words -/
+def strRec4 (ts tid : Nat) (name : List Nat) : Kevent := { strRec ts tid name with values := [0, 0, 0, 0] }
+
+/-- the generated `handle_trace_data_newthread` on the record "thread 7 announces thread 101 of process 11" -/
+example :
+    (PyIRTr.runHandler Gen.PyIRTr.prog exEnv "TRACE_DATA_NEWTHREAD" {} [dataRec 1 7 101 11]).toOption.map
+        (fun r => (r.1.map (·.text.toOption), r.2.pendingNewthread, r.2.threadsPids)) =
+      some (some (some "New thread 101 of parent: 11"), [(7, 11)], [(101, 11)]) := by decide +kernel
+
+/-- … then the generated `handle_trace_string_newthread` on thread 7's name record teaches `(11, "pA")`; on thread 8's
+    it teaches nothing. -/
+example :
+    ((PyIRTr.runHandler Gen.PyIRTr.prog exEnv "TRACE_STRING_NEWTHREAD" { pendingNewthread := [(7, 11)] }
+        [strRec4 3 7 [112, 65]]).toOption.map fun r => (r.1.map (·.text.toOption), r.2.pidsNames)) =
+      some (some (some "New thread of parent: pA"), [(11, "pA")]) ∧
+    ((PyIRTr.runHandler Gen.PyIRTr.prog exEnv "TRACE_STRING_NEWTHREAD" { pendingNewthread := [(7, 11)] }
+        [strRec4 3 8 [112, 65]]).toOption.map fun r => r.2.pidsNames) = some [] := by decide +kernel
+
+/-- a global string in two records (START: two words + "ab", END: "cd") with a foreign record between them: the generated
+    `handle_trace_string_global` reassembles "abcd" under id 5 and reports the string's own two records. -/
+example :
+    let r1 : Kevent := { timestamp := 1, data := [9, 0, 0, 0, 0, 0, 0, 0, 5, 0, 0, 0, 0, 0, 0, 0, 97, 98], values := [9, 5, 0, 0],
+                         tid := 7, debugid := 0x7020001, eventid := 0x7020000, qual := 1 }
+    let r2 : Kevent := { timestamp := 2, data := [120], values := [0, 0, 0, 0], tid := 7, debugid := 0x7000004,
+                         eventid := 0x7000004, qual := 0 }
+    let r3 : Kevent := { timestamp := 3, data := [99, 100, 0, 0], values := [0, 0, 0, 0], tid := 7, debugid := 0x7020002,
+                         eventid := 0x7020000, qual := 2 }
+    PyIRTr.Words4 [r1, r2, r3] ∧
+    ((PyIRTr.runHandler Gen.PyIRTr.prog exEnv "TRACE_STRING_GLOBAL" {} [r1, r2, r3]).toOption.map fun r =>
+        (r.1.map (·.text.toOption), r.1.map (·.events.map (·.timestamp)), r.2.globalStrings)) =
+      some (some (some "New global string: \"abcd\", id: 5"), some [1, 3], [(5, "abcd")]) ∧
+    ((PyIRTr.runHandler Gen.PyIRTr.prog exEnv "TRACE_STRING_GLOBAL" {} [r3]).toOption.map fun r => r.1.isNone) =
+      some true := by decide +kernel
+
+/-- the whole parser with the generated handlers on the adversarial schedule (four-word records): the hypotheses of
+    `run_ir_eq_model` hold, and the run teaches `pA` to pid 11 and `pB` to pid 22. -/
+example :
+    let es := [dataRec 1 1 101 11, dataRec 2 2 102 22, strRec4 3 1 [112, 65], strRec4 4 2 [112, 66]]
+    PyIRTr.Words4 es ∧
+    ((PyIRTr.runVia Gen.PyIRTr.prog exEnv (start {}) es).1.map (·.text.toOption)) =
+      [some "New thread 101 of parent: 11", some "New thread 102 of parent: 22", some "New thread of parent: pA",
+       some "New thread of parent: pB"] ∧
+    (PyIRTr.runVia Gen.PyIRTr.prog exEnv (start {}) es).2.2.tabs.pidsNames = [(22, "pB"), (11, "pA")] := by
+  decide +kernel
+
+example : PInv (fun x => x.values.length = 4) (start {}).pairing := PInv_empty _
 
 end KdVerif.C05
